@@ -34,6 +34,55 @@ MIN_INSTANCES = 400
 DELEG = {'give_part', '_pass_part_downstream'}
 
 
+def ensure_deleg(ctx):
+    """extend DELEG (in place: other rule modules imported the set's users) with the methods of the package that are nothing but a hand-over
+    loop: a part parameter, no store to the device, and True is returned only through the true edge of a delegated hand-over of that part
+    -- whatever such a method is called and in whichever class it lives (`GroupPath._pass_part_downstream`, a pulled-up
+    `PartFlowController._offer_part_downstream`)"""
+    P = ctx.P
+    if P.__dict__.get('_sa_deleg_done'):
+        return
+    P.__dict__['_sa_deleg_done'] = True
+    changed = True
+    rounds = 0
+    while changed and rounds < 3:
+        changed = False
+        rounds += 1
+        byname = {}
+        for cs in P.by_name.values():
+            for c in cs:
+                for nm, f in c.methods.items():
+                    byname.setdefault(nm, []).append((c, f))
+        for nm, lst in byname.items():
+            if nm in DELEG or nm.startswith('__'):
+                continue
+            ok = True
+            for c, f in lst:
+                ps = [a.arg for a in f.args.args]
+                if len(ps) < 2 or ps[0] != 'self':
+                    ok = False
+                    break
+                if any(isinstance(x, (ast.Attribute, ast.Subscript)) and isinstance(x.ctx, (ast.Store, ast.Del)) for x in ast.walk(f)):
+                    ok = False
+                    break
+                if not any(isinstance(x, ast.Call) and isinstance(x.func, ast.Attribute) and x.func.attr in DELEG for x in ast.walk(f)):
+                    ok = False
+                    break
+                try:
+                    g = ctx.graph(c, nm, boolean=True)
+                except Exception:      # noqa: BLE001
+                    ok = False
+                    break
+                conds = [n for n in g.nodes.values() if n.kind == 'cond' and n.frame is g.top and foreign_deleg_call(g, n, n.ast) and n.ast.args
+                         and ast.unparse(n.ast.args[0]) == ps[1]]
+                if not conds or g.exitT in g.reach_edges([g.entry], cut_edges={(n.id, 'T') for n in conds}):
+                    ok = False
+                    break
+            if ok:
+                DELEG.add(nm)
+                changed = True
+
+
 def foreign_deleg_call(g, n, test):
     """`x.give_part(p)` / `x._pass_part_downstream(p)` on another object, not inlined"""
     return (isinstance(test, ast.Call) and isinstance(test.func, ast.Attribute) and test.func.attr in DELEG
